@@ -1371,14 +1371,14 @@ def discharge(ob, timeout_ms=20000, seed=0, both=False):
     """cover obligations (is the precondition satisfiable?) whose hypotheses contain quantifiers over dict items: z3's
     default search is erratic on them.  A model in which every dict has no keys besides the ones the formula reads
     (a strengthening, so its satisfiability implies that of the precondition) is found at once."""
-    if ob.expect_sat and _has_quantifier(ob.pc):
+    if ob.expect_sat:
         import time as _t
 
         t0 = _t.time()
         acc, seen, vseen = {}, set(), {}
         for p in ob.pc:
             _ground_item_arrays(p, acc, seen, vseen)
-        for cfg in ({}, {'smt.auto_config': False, 'smt.mbqi': True, 'smt.ematching': False}):
+        for cfg in (({}, {'smt.auto_config': False, 'smt.mbqi': True, 'smt.ematching': False}) if acc else ()):
             s = z3.Solver()
             s.set('timeout', min(int(timeout_ms), 8000))
             for k, v in cfg.items():
